@@ -372,6 +372,15 @@ def r4_r5(ctx, F):
         ctx.saw(m)
         rv = prov.prov_of(m).return_value()
         d = delta_fields(rv, 1)
+        if d is None:
+            # the write may go through a private builder helper that applies a closure to `&mut self`: judged on the body with the helper and
+            # the closure inlined and the reborrow forwarded (`(*this).x = v` is `self.x = v`)
+            import inline
+            priv = lambda h: (h.self_adt == DIFF and not h.impl_trait and not str(h.j.get('vis')).startswith('Public')) or (h.kind == 'Closure' and h.path.startswith(m.path))
+            mv = inline.inlined(F, m, depth=2, force=priv, stop=lambda h: not priv(h))
+            if mv is not m:
+                rv = prov.prov_of(mv).return_value()
+                d = delta_fields(rv, 1)
         want = expose.get(s)
         if d is None or len(d) != 1:
             ctx.violation('C18-R5', s + ':writes', 'Difficulty::%s must change exactly one field; it changes %s' % (s, sorted(d) if d is not None else '?'), m.where())
